@@ -2,5 +2,5 @@ package extractor
 
 const (
 	zzLine       = 3
-	zzBatchLines = 3
+	zzBatchLines = 2
 )
